@@ -12,6 +12,9 @@
    (tsvr HEDID NAME ATTRSTR DESC)
    (tsvfiles (0|1 x10))         section files a TSV save writes
    (lines S)                    SchemaLoaderWiki._open_file: the lines of a text
+   (cell DESC)                  a TSV cell through to_csv / read_csv as the code configures them
+   (tsvloc (S ...) S)           the ten files of a save location: writer, reader
+   (tsection (S S ...))         the tag section of a merged MediaWiki file: long names, attributes, descriptions
    (rebuild ((LEVEL ID) ...))   long names the MediaWiki reader rebuilds from order and level
    (xmlname TAG? S)             text of the name element Schema2XML writes
    (mergelib (S S ...))         library header after merging the files, and can_save of it
@@ -66,6 +69,9 @@ let fixed : bool = (match Sys.getenv_opt "VERIF_C05_FIXED" with Some "0" -> fals
 (* VERIF_C05_FIXED_F5 (default 0): the repair of finding C05-F5 (names stripped by the XML/TSV readers) *)
 let fixed5 : bool = (match Sys.getenv_opt "VERIF_C05_FIXED_F5" with Some "1" -> true | _ -> false)
 
+(* VERIF_C05_FIXED_F8 (default 0): the proposed repair of finding C05-F8 (reader ignores the case of .tsv) *)
+let fixed8 : bool = (match Sys.getenv_opt "VERIF_C05_FIXED_F8" with Some "1" -> true | _ -> false)
+
 let () = main_loop (fun x ->
   ignore (force_types O N0);
   match x with
@@ -109,6 +115,16 @@ let () = main_loop (fun x ->
     let rows_of k = (match List.find_opt (fun (s, _) -> s = k) tbl with Some (_, true) -> [[O]] | _ -> []) in
     L (List.map str_sx (files_written false (output_tables rows_of)))
   | L [A "lines"; t] -> L (List.map str_sx (open_file_lines (sx_str t)))
+  | L [A "cell"; c] ->
+    desc_sx (cell_value (csv_read_cell [] (csv_write_cell [] (sx_desc c))))
+  | L [A "tsvloc"; parent; nm] ->
+    let fs l = L (List.map (fun (d, f) -> L [L (List.map str_sx d); str_sx f]) l) in
+    let par = List.map sx_str (sx_list parent) in
+    L [fs (writer_files par (sx_str nm)); fs (reader_files fixed8 par (sx_str nm))]
+  | L [A "tsection"; ls] ->
+    (match read_tag_section fixed [] (List.map sx_str (sx_list ls)) with
+     | Exn e -> L [A "exn"; exn_sx e]
+     | Ok items -> L [A "ok"; L (List.map (fun it -> L [L (List.map str_sx it.ti_path); attrs_sx it.ti_attrs; desc_sx it.ti_desc]) items)])
   | L [A "rebuild"; ls] ->
     (match rebuild_names [] (List.map (fun x -> match x with L [l; n] -> (sx_nat l, sx_nat n) | _ -> failwith "rebuild") (sx_list ls)) with
      | Exn e -> L [A "exn"; exn_sx e]
